@@ -207,6 +207,28 @@ func runC09(r *Run, p *Prog) {
 						if !made {
 							made = mapMemberAlwaysMade(p, mu.Map)
 						}
+						if prm, isPrm := mu.Map.(*ssa.Parameter); isPrm && !made && f.Object() != nil && !f.Object().Exported() {
+							// a parameter of an unexported helper: every call site in the package hands in a made map
+							idx := -1
+							for i, q := range f.Params {
+								if q == prm {
+									idx = i
+								}
+							}
+							sites, good := 0, true
+							for _, g := range p.FuncsOf(pkgIDL) {
+								for _, cs := range callsIn(g, false) {
+									if cs.Common.StaticCallee() != f || idx < 0 || idx >= len(cs.Common.Args) {
+										continue
+									}
+									sites++
+									if _, isMade := cs.Common.Args[idx].(*ssa.MakeMap); !isMade {
+										good = false
+									}
+								}
+							}
+							made = sites > 0 && good
+						}
 						r.Ob("O4", shortName(f), "map update on a map created with make", mu.Pos(), made, "write to a map that is not known to be non-nil")
 					}
 				}
